@@ -1132,7 +1132,8 @@ def shard_text(asm: "Assembled", kind: str) -> str:
 
 VIOLATION_KINDS = ("postcondition not satisfied", "precondition not satisfied", "invariant not satisfied",
                    "assertion failed", "possible arithmetic underflow/overflow", "possible bit shift underflow/overflow", "possible division by zero",
-                   "loop invariant", "decreases not satisfied", "unreachable", "recommendation not met")
+                   "loop invariant", "decreases not satisfied", "unreachable", "recommendation not met",
+                   "unable to prove post-condition of closure")
 
 
 def run_verus(path: str, threads=16, rlimit=None, extra=None):
